@@ -2,6 +2,7 @@ pub mod c01;
 pub mod c02;
 pub mod c03;
 pub mod c05;
+pub mod c08;
 pub mod c10;
 pub mod c16;
 
@@ -11,6 +12,10 @@ pub fn scenario(id: &str) -> Option<Box<dyn Scenario>> {
     Some(match id {
         "C01" => Box::new(c01::C01),
         "C16" => Box::new(c16::C16),
+        "C08" => Box::new(c08::C08),
+        "C13" => Box::new(c08::C13),
+        "C04" => Box::new(c08::C04),
+        "C09" => Box::new(c08::C09),
         "C03" => Box::new(c03::C03),
         "C07" => Box::new(c03::C07),
         "C05" => Box::new(c05::C05),
